@@ -331,4 +331,4 @@ def _node_named_node(case):
     return any(any(str(p).endswith("node") for p in c["parents"]) and len(c["parents"]) >= 2 for c in spec["cpds"])
 
 
-PREDICATES = {"node_named_node_among_several_parents": _node_named_node}
+PREDICATES = {}
